@@ -1589,3 +1589,113 @@ func oneSpellingOfAHash(c *Ctx, r *Report, rule string) {
 	r.Floor(rule, "key spaces with identifier-derived keys", len(ids), 4)
 	r.Floor(rule, "map and entry-map accesses examined", nUses, 20)
 }
+
+// explicitHeadsComeFromTheLoader: a constructor that tells NewLog which entries are the heads (instead of
+// letting it search all the entries) takes them from the snapshot its loader returned — the same snapshot the
+// entries come from — and from nothing else: heads computed from a list the caller holds miss what the walk
+// added or left out, and the traversal starts from the wrong entries.
+func explicitHeadsComeFromTheLoader(c *Ctx, r *Report, rule string) {
+	p := c.P
+	optHeads, optEntries := p.Field("", "LogOptions", "Heads"), p.Field("", "LogOptions", "Entries")
+	snapHeads := p.Field("iface", "Snapshot", "Heads")
+	newLog := p.Func("", "", "NewLog")
+	isSnapshot := func(t types.Type) bool {
+		if pt, ok := t.Underlying().(*types.Pointer); ok {
+			t = pt.Elem()
+		}
+		return isNamed(t, p.pkgPath("iface"), "Snapshot")
+	}
+	n := 0
+	for _, fn := range p.Fns {
+		if fn.Body == nil || fn.Pkg.PkgPath != p.pkgPath("") {
+			continue
+		}
+		sf := p.SSAFunc(fn)
+		if sf == nil {
+			continue
+		}
+		var headsVal, entriesVal ssa.Value
+		var headsPos token.Pos
+		allInstrs(sf, false, func(ins ssa.Instruction) {
+			st, ok := ins.(*ssa.Store)
+			if !ok {
+				return
+			}
+			switch f, _ := fieldOf(st.Addr); f {
+			case optHeads:
+				headsVal, headsPos = st.Val, st.Pos()
+			case optEntries:
+				entriesVal = st.Val
+			}
+		})
+		if headsVal == nil || fn == newLog {
+			continue // NewLog's own search, over all the entries it was given, is the default
+		}
+		if cst, ok := headsVal.(*ssa.Const); ok && cst.IsNil() {
+			continue
+		}
+		n++
+		var loaders []*ssa.Call
+		stopAtLoader := func(x ssa.Value) bool {
+			if call, ok := x.(*ssa.Call); ok {
+				if res := call.Call.Signature().Results(); res.Len() > 0 && isSnapshot(res.At(0).Type()) {
+					loaders = append(loaders, call)
+					return false
+				}
+			}
+			return true
+		}
+		bad, fromSnapshot := "", false
+		var badPos token.Pos
+		for x := range backSlice(headsVal, stopAtLoader) {
+			if x.Parent() != sf {
+				continue
+			}
+			switch y := x.(type) {
+			case *ssa.Parameter:
+				if _, isSl := y.Type().Underlying().(*types.Slice); isSl {
+					bad, badPos = "the parameter "+y.Name(), headsPos
+				}
+			case *ssa.FieldAddr, *ssa.Field:
+				if f, _ := fieldOf(y); f == snapHeads {
+					fromSnapshot = true
+				}
+			case *ssa.Call:
+				if cal := y.Call.StaticCallee(); cal != nil && cal.Object() == p.Func("entry", "", "FindHeads").Obj {
+					bad, badPos = "a head search of its own", y.Pos()
+				}
+			}
+		}
+		headLoaders := loaders
+		loaders = nil
+		sameLoader := false
+		if entriesVal != nil {
+			backSlice(entriesVal, stopAtLoader)
+			for _, a := range headLoaders {
+				for _, b := range loaders {
+					if a == b {
+						sameLoader = true
+					}
+				}
+			}
+		}
+		switch {
+		case bad != "":
+		case !fromSnapshot || len(headLoaders) == 0:
+			bad, badPos = "something else than the Heads of the snapshot its loader returned", headsPos
+		case !sameLoader:
+			bad, badPos = "another snapshot than the one the entries come from", headsPos
+		}
+		r.Check(bad == "", rule, r.Key(rule, fn, "explicit-heads", ""), badPosOr(badPos, headsPos),
+			"the heads handed to NewLog are the Heads of the snapshot the entries come from",
+			fmt.Sprintf("%s hands NewLog heads taken from %s: they are not searched for in the entries the loader returned — what the walk added below or beside them, or left out, is not reflected, and the linearised view starts from entries that are not the heads of what the log holds", fn.Name, bad))
+	}
+	r.Floor(rule, "constructors that hand explicit heads to NewLog", n, 1)
+}
+
+func badPosOr(a, b token.Pos) token.Pos {
+	if a.IsValid() {
+		return a
+	}
+	return b
+}
